@@ -145,7 +145,7 @@ MUTANTS = [
      "        return np.nonzero(np.linalg.norm(self.W_, axis=1, ord=2) > 1e-3)[0]", ["C06"]),
     ("check-groups-completion-drops-last", "gemclus/sparse/_base_sparse.py",
      "new_groups = groups + [[i] for i in range(n_features_in) if i not in all_indices]",
-     "new_groups = groups + [[i] for i in range(n_features_in - 1) if i not in all_indices]", ["C06", "C16"]),
+     "new_groups = groups + [[i] for i in range(n_features_in - 1) if i not in all_indices]", ["C06"]),
     ("sparse-mlp-group-prox-skips-alpha-zero", "gemclus/sparse/_mlp_sparse.py",
      "            new_W_skip, new_W1 = group_mlp_prox_grad(self.groups_, self.W_skip_, self.W1_,\n                                                     self.alpha * self.optimiser_.learning_rate, self.M)",
      "            new_W_skip, new_W1 = group_mlp_prox_grad(self.groups_, self.W_skip_, self.W1_,\n                                                     self.alpha * self.optimiser_.learning_rate, self.M) if self.alpha > 0 else (self.W_skip_, self.W1_)",
@@ -213,6 +213,24 @@ MUTANTS = [
     ("hellinger-grad-unclipped-division", "gemclus/gemini/_fdivergences.py",
      "        cluster_wise_estimates = np.sqrt(p_y_x * p_y)\n        estimates = np.sum(cluster_wise_estimates, axis=1)",
      "        cluster_wise_estimates = np.sqrt(y_pred * p_y)\n        estimates = np.sum(cluster_wise_estimates, axis=1)", ["C17", "C13"]),
+    ("constraint-lr-closed-left", "gemclus/_base_gemini.py", '"learning_rate": [Interval(Real, 0, None, closed="neither")],',
+     '"learning_rate": [Interval(Real, 0, None, closed="left")],', ["C16"]),
+    ("constraint-kauri-leaf-split-slack", "gemclus/tree/kauri.py", "        if self.min_samples_leaf * 2 > self.min_samples_split:",
+     "        if self.min_samples_leaf * 2 > self.min_samples_split + 1:", ["C16"]),
+    ("check-groups-upper-bound", "gemclus/sparse/_base_sparse.py", "if min(all_indices) < 0 or max(all_indices) >= n_features_in:",
+     "if min(all_indices) < 0 or max(all_indices) > n_features_in:", ["C16"]),
+    ("check-groups-partial-duplicates", "gemclus/sparse/_base_sparse.py",
+     "            if len(set(all_indices)) != len(all_indices):\n                raise ValueError(\"There cannot be duplicate entries in groups.\")\n", "", ["C16"]),
+    ("constraint-epsilon-closed", "gemclus/gemini/_geomdistances.py",
+     '            "kernel_params": [dict, None],\n            "epsilon": [Interval(Real, 0, 1, closed="neither")]',
+     '            "kernel_params": [dict, None],\n            "epsilon": [Interval(Real, 0, 1, closed="both")]', ["C16"]),
+    ("douglas-mask-length-unchecked", "gemclus/tree/douglas.py",
+     "            if len(self.feature_mask) != X.shape[1]:", "            if len(self.feature_mask) > X.shape[1]:", ["C16"]),
+    ("gmm-proportions-unchecked", "gemclus/data/synthetic_data.py", "    if np.sum(pvals) != 1:", "    if np.sum(pvals) > 1.5:\n        pass\n    pvals = pvals / np.sum(pvals)\n    if False:", ["C16", "C20"]),
+    ("fit-init-before-affinity-back", "gemclus/_base_gemini.py",
+     "        gemini = self.get_gemini()\n\n        if self.verbose:\n            print(f\"Computing affinity\")\n\n        affinity = gemini.compute_affinity(X, y)\n\n        # Initialise the weights\n        if self.verbose:\n            print(\"Initialising parameters\")\n        self._init_params(random_state, X)\n        weights = self._get_weights()\n",
+     "        # Initialise the weights\n        self._init_params(random_state, X)\n        weights = self._get_weights()\n        gemini = self.get_gemini()\n        affinity = gemini.compute_affinity(X, y)\n", ["C16"]),
+    ("kauri-min-samples-unchecked", "gemclus/tree/kauri.py", "ensure_min_samples=self.min_samples_leaf)", "ensure_min_samples=1)", ["C16"]),
 ]
 
 
